@@ -443,6 +443,16 @@ bool TypeAuditor::ViGlobal(Cursor iter) {
     );
     return false;
   }
+  if (std::holds_alternative<LogicT>(*type) && !iter.IsRoot()
+    && iter.Parent().id != TokenID::PUNC_DEFINE && iter.Parent().id != TokenID::NT_FUNC_DEFINITION) {
+    // Note: identifiers are set expressions syntactically - logical global cannot be an operand
+    OnError(
+      SemanticEID::globalNotTyped,
+      iter->pos.start,
+      alias
+    );
+    return false;
+  }
   return SetCurrent(*type);
 }
 
